@@ -22,6 +22,7 @@ import math
 
 from mc import alpha
 from mc.env import guard
+from mc.state import track_extras
 from mc.explore import bfs
 from tracklib.core.obs_time import ObsTime
 from tracklib.core.obs import Obs
@@ -395,7 +396,8 @@ def _base_canon(b):
 
 def canon(t):
     return (kind_of(t), _base_canon(t.base),
-            tuple(tuple(repr(float(c)) for c in (o.position.getX(), o.position.getY(), o.position.getZ())) for o in t))
+            tuple(tuple(repr(float(c)) for c in (o.position.getX(), o.position.getY(), o.position.getZ())) for o in t),
+            track_extras(t, skip=("_Track__POINTS", "base")))
 
 
 def clone(t):
